@@ -4,6 +4,7 @@ From Coq Require Import List Arith Lia ZArith Permutation.
 Import ListNotations.
 From LS Require Import Gen_Leaf CV Gen_LeafProofs CvSpec.
 From LS Require CvSpec2.
+From LS Require Gen_Shape Shapes.
 
 (* for EVERY stream of draws in range the rejection sampler — when it returns — has placed every
    object index exactly once (a permutation of 0..nobj-1) *)
@@ -15,6 +16,11 @@ Proof. intros Hr Hs H. exact (groups_partition nobj stream Hr slots fuel l Hs H)
 Theorem C05_generator_partition seed nobj slots fuel l : 0 < nobj -> (Z.of_nat nobj < 2 ^ 31)%Z ->
   nobj <= slots -> fill nobj (real_stream seed nobj) slots fuel 0 [] = Some l -> Permutation l (seq 0 nobj).
 Proof. exact (real_groups_partition seed nobj slots fuel l). Qed.
+(* the sampler these theorems are about is the one in the source: its syntax tree, regenerated from
+   src/modelvalidation.c on every run, is the tree CV.fill was transcribed from *)
+Theorem C05_sampler_is_the_transcribed_routine :
+  Gen_Shape.shape_random_kfold_group_generator = Shapes.transcribed_random_kfold_group_generator.
+Proof. reflexivity. Qed.
 (* training and test parts of a split are disjoint and together exhaust the group matrix *)
 Theorem C05_split_partition (gid : list (list Z)) g : g < length gid ->
   Permutation (fst (split_ids gid g) ++ snd (split_ids gid g)) (flat_map row_ids gid).
@@ -63,6 +69,7 @@ Example C05_example_groups : gen_groups 4000 7 3 7 = Some [[1; 4; 0]; [6; 3; 2];
 Proof. vm_compute. reflexivity. Qed.
 
 Print Assumptions C05_generator_partition.
+Print Assumptions C05_sampler_is_the_transcribed_routine.
 Print Assumptions C05_split_partition.
 Print Assumptions C05_loo_out_of_sample.
 Print Assumptions C05_loo_equals_refit.
